@@ -50,6 +50,7 @@ def assumed_contracts(items):
         mod = importlib.import_module(modname)
         for q, spec in mod.SPECS.items():
             if spec.pure and spec.note.startswith('ASSUMED'): out.append('%s: %s' % (q, spec.note))
+            elif getattr(spec, 'region', None) is not None and (quals is None or q in quals): out.append('%s: %s' % (q, spec.note or 'REGION: entry state assumed'))
     return sorted(set(out))
 
 
